@@ -142,6 +142,19 @@ def pygom_frame(exc):
     return hit
 
 
+class NonNumeric(Exception):
+    """The code under test returned something that is not an array of numbers (e.g. an unevaluated
+    sympy expression): attributable to it, not to the harness."""
+
+
+def num_array(v):
+    import numpy as np
+    try:
+        return np.asarray(v, float)
+    except (TypeError, ValueError) as e:
+        raise NonNumeric("result is not numeric: %r (%s)" % (v, e))
+
+
 def crash_failure(prop, exc, step, what):
     """Turn an exception raised while executing a *valid* operation into a failure record, or
     re-raise it as a HarnessError when no frame of the code under test is involved."""
@@ -151,6 +164,8 @@ def crash_failure(prop, exc, step, what):
         tb = tb.tb_next
     raised_in = os.path.realpath(tb.tb_frame.f_code.co_filename) if tb is not None else ""
     in_harness = raised_in.startswith(os.path.join(VERIF, "pgsim")) and type(exc).__name__ != "InjectedFault"
+    if isinstance(exc, NonNumeric):
+        return fail("%s.value.nonnumeric" % prop, step, "%s: %s" % (what, str(exc)[:300]))
     if where is None or isinstance(exc, HarnessError) or in_harness:
         raise HarnessError("harness exception during %s: %r\n%s" % (
             what, exc, "".join(traceback.format_exception(type(exc), exc, exc.__traceback__))))
@@ -375,7 +390,7 @@ def confirm_fresh(prop, path, oracle):
     return ("oracle=%s " % oracle) in out, out
 
 
-def handle_failures(mod, recs, max_report=4):
+def handle_failures(mod, recs, max_report=3):
     """Group failures by oracle id, minimise one case per oracle, confirm, classify.
     Returns (violations, known_reported, nondeterministic)."""
     prop = mod.PROP
